@@ -14,7 +14,7 @@ OBLIGATIONS = [
   Ob('C01.pgram_rt_2', H, 'h_pgram_rt', tier='thorough', unwind=6, defines={'NE': 2, 'NCOMP': 1, 'DATA_BITS': 29}, max_alloc=16,
      bound='monolithic encoder->decoder round trip: 2 entries x 1 component, values in [-2^29,2^29), arbitrary in-range table',
      covers='MeshPredictionSchemeParallelogramEncoder::ComputeCorrectionValues, ...Decoder::ComputeOriginalValues, wrap transform'),
-  Ob('C01.pgram_rt_3', H, 'h_pgram_rt', tier='thorough', unwind=6, defines={'NE': 3, 'NCOMP': 1, 'DATA_BITS': 29}, max_alloc=16,
+  Ob('C01.pgram_rt_3', H, 'h_pgram_rt', tier='extended', unwind=6, defines={'NE': 3, 'NCOMP': 1, 'DATA_BITS': 29}, max_alloc=16,
      bound='3 entries x 1 component', covers='as C01.pgram_rt_2'),
   Ob('C01.seq_conn_rt', 'C01/seqconn.cc', 'h_seq_conn_rt', tier='quick', unwind=8, defines={'_GLIBCXX_ASSERTIONS': 1}, max_alloc=32, mem_gb=20, timeout=900,
      stubs={'_ZNK5draco7Options7GetBoolERKNSt7__cxx1112basic_stringIcSt11char_traitsIcESaIcEEEb': 'ret0'},
